@@ -68,7 +68,20 @@ def run(env, rep):
     dec_of = {}
     default = None
     alias_paths = {}
-    for p in grammar.reads(env, trm.key, all_local_calls=True, inline=True).paths:
+    def strip_probe(ex, it, S, t, args):
+        # at a call that cuts a prefix off the payload: what the state knows about the first byte of the buffer it cuts
+        if callee_name(t) not in ("bytes::bytes::Bytes::slice", "bytes::bytes::Bytes::split_off", "bytes::buf::buf_impl::Buf::advance", "bytes::bytes::Bytes::split_to") or not args:
+            return None
+        try:
+            loc = it.target(args[0])
+            b0 = S.read((loc[0], loc[1] + (("ix", 0),)))
+            if sv_type(b0) is None and not is_const(b0):
+                set_ty(b0, "u8")
+            d = S.dom(b0)
+            return ("first-byte", d.lo, d.hi)
+        except Exception:
+            return ("first-byte", 0, 255)
+    for p in grammar.reads(env, trm.key, all_local_calls=True, inline=True, call_probe=strip_probe).paths:
         s = sig(p)
         tid = None
         target = None
@@ -154,7 +167,9 @@ def run(env, rep):
                 arg = call[0][2][0] if call[0][2] else ""
                 if "slice" in arg:
                     tests = [t for t in s if t[0] == "when" and "elem" in t[1] and (" Eq 0" in t[1] or t[2] == "0")]
-                    if not tests:
+                    # or, however the test was written: the state at the cutting call knows that the first byte is 0
+                    known0 = [t for t in s if t[0] == "cprobe" and t[1][0] == "first-byte" and t[1][1] == t[1][2] == 0]
+                    if not tests and not known0:
                         ok = False
                         detail = "; a prefix is stripped from type-%d payloads without testing that it is the 0x00 marker of a disguised AMF3 message" % a
                 elif not re.match(r"^load\(\*?load\(self\)\.data\)$", arg):
